@@ -36,6 +36,9 @@ type numPtr[T any] struct {
 type numSlice[T any] struct {
 	V []T `@Tok+`
 }
+type numSliceCap[T any] struct {
+	V []T `@( Tok+ )`
+}
 type numSigned[T any] struct {
 	V T `@(Sign? Tok)`
 }
@@ -95,6 +98,7 @@ func mkNumKind[T any](name, class string, bits int) numKind {
 		pPtr    *participle.Parser[numPtr[T]]
 		pSlice  *participle.Parser[numSlice[T]]
 		pSigned *participle.Parser[numSigned[T]]
+		pSlCap  *participle.Parser[numSliceCap[T]]
 		pOuter  *participle.Parser[numOuter[T]]
 		pAfter  *participle.Parser[numAfter[T]]
 	)
@@ -125,6 +129,15 @@ func mkNumKind[T any](name, class string, bits int) numKind {
 					pSlice = participle.MustBuild[numSlice[T]](opts...)
 				}
 				ast, err := pSlice.ParseString("f", input)
+				res.err = err
+				if err == nil {
+					res.vals = fieldVals(reflect.ValueOf(ast).Elem().Field(0))
+				}
+			case "slicecap":
+				if pSlCap == nil {
+					pSlCap = participle.MustBuild[numSliceCap[T]](opts...)
+				}
+				ast, err := pSlCap.ParseString("f", input)
 				res.err = err
 				if err == nil {
 					res.vals = fieldVals(reflect.ValueOf(ast).Elem().Field(0))
@@ -208,7 +221,7 @@ type c17Case struct {
 
 func (c *c17Case) input() string {
 	switch c.Shape {
-	case "slice":
+	case "slice", "slicecap":
 		return strings.Join(c.Texts, " ")
 	case "signed":
 		return c.Texts[0] + c.Spaces + c.Texts[1]
@@ -327,7 +340,7 @@ func checkC17(c *c17Case, r *vstat.Run) outcome {
 	// expected
 	var wants []numWant
 	switch c.Shape {
-	case "slice":
+	case "slice", "slicecap":
 		for _, t := range c.Texts {
 			wants = append(wants, numExpect(k, t))
 		}
@@ -392,8 +405,7 @@ func checkC17(c *c17Case, r *vstat.Run) outcome {
 	}
 	first := toks[0]
 	if c.Shape == "slice" {
-		first = toks[0] // the capture @Tok+ is one capture per token? no: each iteration is its own capture -> located at the failing element
-		first = toks[firstBad]
+		first = toks[firstBad] // @Tok+ : every element is a capture of its own, located at the failing element
 	}
 	if perr.Position() != first.Pos {
 		sig := "error-pos"
@@ -481,10 +493,10 @@ func genNumText(t *rapid.T) (string, bool) {
 func TestC17(t *testing.T) {
 	runProp(t, "C17", c17Rule, func(t *rapid.T, r *vstat.Run) {
 		k := numKinds[rapid.IntRange(0, len(numKinds)-1).Draw(t, "kind")]
-		c := &c17Case{Kind: k.name, Shape: rapid.SampledFrom([]string{"scalar", "scalar", "ptr", "slice", "signed", "outer", "after"}).Draw(t, "shape")}
+		c := &c17Case{Kind: k.name, Shape: rapid.SampledFrom([]string{"scalar", "scalar", "ptr", "slice", "slicecap", "signed", "outer", "after"}).Draw(t, "shape")}
 		nt := false
 		switch c.Shape {
-		case "slice":
+		case "slice", "slicecap":
 			n := rapid.IntRange(1, 3).Draw(t, "n")
 			for i := 0; i < n; i++ {
 				s, b := genNumText(t)
